@@ -289,6 +289,28 @@ func init() {
 		one := ex.decP()
 		ex.assume(st, f.Ge(e, f.Int(0)))
 		ex.assume(st, f.Implies(f.And(f.Ge(a[0], f.Int(0)), f.Le(a[0], one)), f.And(f.Ge(r, f.Int(0)), f.Le(r, one))))
+		ex.assume(st, f.Implies(f.Ge(a[0], f.Int(0)), f.Ge(r, f.Int(0))))
 		return []*Term{r, e}, true
+	})
+	// LegacyDec.ApproxSqrt = ApproxRoot(2): trusted sign fact only - the root of a non-negative value is not negative
+	reg("(cosmossdk.io/math.LegacyDec).ApproxSqrt", func(fr *Frame, st *State, c *ssa.CallCommon, a []*Term) ([]*Term, bool) {
+		ex := fr.ex
+		f := ex.f
+		r := f.Fresh("approxsqrt", SInt)
+		e := f.Fresh("approxsqrt.err", SInt)
+		ex.assume(st, f.Ge(e, f.Int(0)))
+		ex.assume(st, f.Implies(f.Ge(a[0], f.Int(0)), f.Ge(r, f.Int(0))))
+		return []*Term{r, e}, true
+	})
+	// LegacyDec.Power(2) is d.Mul(d) (one rounding); other exponents: only "an even power is not negative"
+	reg("(cosmossdk.io/math.LegacyDec).Power", func(fr *Frame, st *State, c *ssa.CallCommon, a []*Term) ([]*Term, bool) {
+		ex := fr.ex
+		f := ex.f
+		if a[1].op == "int" && a[1].ival.IsInt64() && a[1].ival.Int64() == 2 {
+			r := ex.roundHalfEvenDiv(f.Mul(a[0], a[0]), ex.decP())
+			ex.assume(st, f.Ge(r, f.Int(0)))
+			return []*Term{r}, true
+		}
+		return nil, false
 	})
 }
